@@ -120,7 +120,25 @@ func genCase(rt *rapid.T, nInputs int) *Case {
 		if ng.Plus {
 			kind = "plusng"
 		}
-		e := &lexm.Expr{Kind: "seq", Kids: []*lexm.Expr{prefix, {Kind: kind, Kids: []*lexm.Expr{body}}, {Kind: "lit", Lit: ng.Term}}}
+		rep := &lexm.Expr{Kind: kind, Kids: []*lexm.Expr{body}}
+		term := &lexm.Expr{Kind: "lit", Lit: ng.Term}
+		e := &lexm.Expr{Kind: "seq", Kids: []*lexm.Expr{prefix, rep, term}}
+		// the same rule written with the repetition nested: in parentheses, together with the
+		// prefix in parentheses, or with the opening part (prefix and repetition) in a macro
+		switch ri(rt, 0, 7, "nest") {
+		case 0:
+			e = &lexm.Expr{Kind: "seq", Kids: []*lexm.Expr{prefix, {Kind: "group", Kids: []*lexm.Expr{rep}}, term}}
+		case 1:
+			e = &lexm.Expr{Kind: "seq", Kids: []*lexm.Expr{{Kind: "group", Kids: []*lexm.Expr{{Kind: "seq", Kids: []*lexm.Expr{prefix, rep}}}}, term}}
+		case 2:
+			mn := fmt.Sprintf("OPEN%c", 'A'+rune(i))
+			s.Macros = append(s.Macros, &lexm.Macro{Name: mn, E: &lexm.Expr{Kind: "seq", Kids: []*lexm.Expr{prefix, rep}}})
+			e = &lexm.Expr{Kind: "seq", Kids: []*lexm.Expr{{Kind: "ref", Ref: mn}, term}}
+		case 3:
+			mn := fmt.Sprintf("BODY%c", 'A'+rune(i))
+			s.Macros = append(s.Macros, &lexm.Macro{Name: mn, E: rep})
+			e = &lexm.Expr{Kind: "seq", Kids: []*lexm.Expr{prefix, {Kind: "ref", Ref: mn}, term}}
+		}
 		r := &lexm.Rule{E: e}
 		switch ri(rt, 0, 5, "ngfrag") {
 		case 0, 1:
@@ -382,7 +400,7 @@ func TestC08(t *testing.T) {
 	defer run.Finish(t)
 	run.Rule = "one mode with 1-2 rules of the shape prefix body{*?|+?} terminator (prefix: literal of 1-3 code points or a class; body: a class, '.', or an alternation of two; terminator from a pool favouring multi-character and self-overlapping literals such as aab, aa, **/, \"\"\", /*/) as token or @discard fragment, plus 0-3 greedy rules whose first characters are disjoint from the prefixes (declared before or after); inputs: prefix + body text containing proper prefixes and first characters of the terminator + terminator (sometimes twice, sometimes missing) + greedy text; " +
 		"oracle = the statement: the token ends at the first occurrence of the terminator after the prefix (after >=1 repetition for +?) with every code point in between in the body set; greedy rules by the derivative reference lexer; " +
-		"non-trivial = input in which the terminator occurs again after the match or its first character occurs inside the body; distinct by (spec text, input). Non-greedy rules are tokens, @discard fragments, @emit fragments or accumulating fragments (their text joins the next token). Greedy rules sharing a first character with a non-greedy rule are outside the generated domain (undocumented interaction)."
+		"non-trivial = input in which the terminator occurs again after the match or its first character occurs inside the body; distinct by (spec text, input). The repetition may be nested (in parentheses, with the prefix in parentheses, or with prefix / repetition in a macro). Non-greedy rules are tokens, @discard fragments, @emit fragments or accumulating fragments (their text joins the next token). Greedy rules sharing a first character with a non-greedy rule are outside the generated domain (undocumented interaction)."
 	run.Assumptions = []string{"greedy rules never start with a character a non-greedy rule can start with"}
 	report := func(c *Case, detail string) {
 		c.Detail = detail
